@@ -170,12 +170,29 @@ def check_C15(tier_, sd, consts_ok, consts_detail):
 
 # ------------------------------------------------------------------ replay
 def replay(path):
+    """re-run the case of a replay file on the implementation and on the model and show both observations"""
     obj = json.load(open(path))
-    case = obj.get("case")
+    case = obj.get("case") or (obj.get("project") or {}).get("case_text")
     if not case:
-        print("replay: this file names a broken theorem/correspondence, there is no concrete case"); return 1
-    import vp_build  # noqa
-    return 0
+        print("replay: this file names a broken theorem / correspondence / build step; it carries no concrete case:")
+        print(json.dumps({k: v for k, v in obj.items() if k in ("property", "broken", "theorem", "what", "detail")}, indent=1)[:3000])
+        return 1
+    env = dict(os.environ, VPH_TAG_REPEAT="8")
+    i = run_impl([case], env=env)[0]; m = run_model([case])[0]
+    print("property      :", obj.get("property"))
+    print("what          :", obj.get("what") or obj.get("kind"))
+    if case.startswith("R "):
+        oi, om = parse_obs(i), parse_obs(m)
+        print("implementation:", json.dumps(obs_summary(oi), indent=1))
+        print("model (spec)  :", json.dumps(obs_summary(om), indent=1))
+        same = (oi["verdict"], oi["F"], oi["U"]) == (om["verdict"], om["F"], om["U"])
+    else:
+        print("case          :", decode_case(case))
+        print("implementation:", i)
+        print("model (spec)  :", m)
+        same = i == m
+    print("implementation and model %s on this case" % ("AGREE" if same else "DISAGREE"))
+    return 0 if same else 1
 
 # ================================================================== whole-project checks
 import gen
